@@ -15,7 +15,7 @@ ops (paths are lists of names, [] = the model)
   ["SetFormula", space, cells, farg]             ["RenameCells", space, cells, new]
   ["RenameSpace", space, new]                    ["AddBases", space, [base paths]]
   ["RemoveBases", space, [base paths]]           ["SetAttr", space|[], name, int|null]
-  ["DelAttr", space|[], name]
+  ["DelAttr", space|[], name]                     ["SetParams", space, [names]]
   farg: ["none"] | ["lam", t] | ["def", fname, t] | ["bad", k]
 """
 import sys, json, re
@@ -164,9 +164,37 @@ def obs_space(s, m, out, path):
         "bases": [b.fullname.split(".", 1)[1] for b in s.bases],
         "direct": [b.fullname.split(".", 1)[1] for b in s._direct_bases],
         "name": s.name, "fullname": s.fullname, "params": list(s.parameters) if s.parameters is not None else None,
+        "item": obs_item(s, m),
     }
     for k, c in s.spaces.items():
         obs_space(c, m, out, path + [k])
+
+
+def obs_item(s, m):
+    """the ItemSpace s[0, ..., 0] of a space with parameters: dir(), refs, cells, spaces, what the names denote;
+    the ItemSpace is deleted again"""
+    ps = s.parameters
+    if not ps:
+        return None
+    try:
+        it = s[tuple(0 for _ in ps)] if len(ps) > 1 else s[0]
+        names = list(dir(it))
+        attrs = {}
+        for n in names:
+            try:
+                attrs[n] = kind_of(getattr(it, n), m)
+            except BaseException as e:
+                attrs[n] = "err:" + type(e).__name__
+        out = {"dir": names, "cells": list(it.cells), "spaces": list(it.spaces),
+               "refs": {k: (None if k in ("__builtins__", "_self", "_space", "_model") else val(v)) for k, v in it.refs.items()},
+               "attrs": attrs}
+    except BaseException as e:
+        out = {"err": "%s: %s" % (type(e).__name__, str(e)[:100])}
+    try:
+        s.clear_items()
+    except BaseException as e:
+        out["clear_err"] = "%s: %s" % (type(e).__name__, str(e)[:100])
+    return out
 
 
 def observe(m):
@@ -223,6 +251,8 @@ def do_op(m, op):
         setattr(find(m, op[1]), op[2], op[3])
     elif k == "DelAttr":
         delattr(find(m, op[1]), op[2])
+    elif k == "SetParams":
+        find(m, op[1]).parameters = tuple(op[2])
     else:
         raise RuntimeError("unknown op %r" % (op,))
 
